@@ -1492,6 +1492,10 @@ func runTokens(c *engine.Ctx) engine.Result {
 			Kind string `json:"kind"`
 			Seq  int    `json:"seq"`
 		}
+		if err := json.Unmarshal(c.Replay, &rk); err == nil && rk.Kind == "refused-authorization" {
+			runTokensRefusedAuthorization(c, rk.Seq)
+			return res
+		}
 		if err := json.Unmarshal(c.Replay, &rk); err == nil && rk.Kind == "reencoded-key" {
 			runTokensReencodedKey(c, rk.Seq)
 			return res
